@@ -307,7 +307,7 @@ func Market() Spec {
 		c.Fund(ctx, L, locked)
 		return ctx
 	}
-	good = append(good, Buy(L, "B0-half-by-locked-buyer", BuySpec{Seller: B, K: 0, Qty: "0.5", DAR: true, MaxFee: I64(100)}))
+	bad = append(bad, Buy(L, "B0-half-by-locked-buyer", BuySpec{Seller: B, K: 0, Qty: "0.5", DAR: true, MaxFee: I64(100)}))
 	return Spec{Name: "market", Seeds: []explore.Seed{prepared, FreshCoreSeed()},
 		Events: append(good, bad...), DepthQuick: 4, DepthThor: 5, ExpectFail: expectFail(names(bad...)...), MinStates: 500}
 }
@@ -505,6 +505,99 @@ func SparseGenesis() Spec {
 		exp[e.Name] = true
 	}
 	return Spec{Name: "sparse-genesis", Seeds: []explore.Seed{seed}, Events: evs, DepthQuick: 3, DepthThor: 4, ExpectFail: exp, MinStates: 100}
+}
+
+// OddGenesis: the prepared state (plus a class, batch and basket of the credit type BIO) imported from a
+// HAND-WRITTEN genesis document with rows that no message would have produced but the modules' own
+// validation admits: an open batch without supply row and balances, an expiring sell order whose quantity
+// is 0, a sell order whose ask amount has a fraction, a carbon basket whose allowed classes include a class
+// of another credit type. The events touch exactly those rows. (Rows of this kind violate the well-formedness
+// clauses of C01/C06 by themselves, so the scenario is only used by the checks named in props.)
+const OddBatch = "C01-001-20220101-20230101-009"
+
+func OddGenesis() Spec {
+	e10 := chain.T0.Add(10 * time.Second)
+	seed := GenesisSeed("hand-written-genesis", append(PreparedActions(), ThreeLetterTypeActions()...), func(d GenDoc) {
+		// ORM genesis tables are JSON lists; auto-increment tables start with the last id as a number
+		load := func(table string) (lead []interface{}, rows []map[string]interface{}) {
+			var raw []interface{}
+			if err := json.Unmarshal(d[table], &raw); err != nil {
+				panic(err)
+			}
+			for _, x := range raw {
+				if m, ok := x.(map[string]interface{}); ok {
+					rows = append(rows, m)
+				} else {
+					lead = append(lead, x)
+				}
+			}
+			return
+		}
+		store := func(table string, lead []interface{}, rows []map[string]interface{}, lastID int) {
+			var out []interface{}
+			if len(lead) > 0 {
+				out = append(out, lastID)
+			}
+			for _, r := range rows {
+				out = append(out, r)
+			}
+			d.Set(table, out)
+		}
+		clone := func(m map[string]interface{}) map[string]interface{} {
+			n := map[string]interface{}{}
+			for k, v := range m {
+				n[k] = v
+			}
+			return n
+		}
+		// (1) an open batch of project 1 with no supply row and no balances
+		lead, b := load("regen.ecocredit.v1.Batch")
+		nb := clone(b[0])
+		nb["key"], nb["denom"], nb["open"] = "9", OddBatch, true
+		nb["start_date"], nb["end_date"] = "2022-01-01T00:00:00Z", "2023-01-01T00:00:00Z"
+		store("regen.ecocredit.v1.Batch", lead, append(b, nb), 9)
+		// (2) sell orders: quantity 0 expiring at T0+10s, and a fractional ask amount
+		lead, o := load("regen.ecocredit.marketplace.v1.SellOrder")
+		o1, o2 := clone(o[0]), clone(o[0])
+		o1["id"], o1["quantity"], o1["expiration"] = "8", "0", e10.Format(time.RFC3339)
+		o2["id"], o2["quantity"], o2["ask_amount"] = "9", "0.5", "10.5" // escrowed below
+		delete(o2, "expiration")
+		store("regen.ecocredit.marketplace.v1.SellOrder", lead, append(o, o1, o2), 9)
+		_, bal := load("regen.ecocredit.v1.BatchBalance")
+		moved := false
+		for _, r := range bal {
+			if r["batch_key"] == "1" && r["tradable_amount"] == "5" && r["escrowed_amount"] == "2" {
+				r["tradable_amount"], r["escrowed_amount"], moved = "4.5", "2.5", true
+			}
+		}
+		if !moved {
+			panic("odd genesis: B's balance row of b1 not found")
+		}
+		store("regen.ecocredit.v1.BatchBalance", nil, bal, 0)
+		// (3) the carbon basket NCT also lists the class BIO01
+		_, bc := load("regen.ecocredit.basket.v1.BasketClass")
+		store("regen.ecocredit.basket.v1.BasketClass", nil, append(bc, map[string]interface{}{"basket_id": "1", "class_id": "BIO01"}), 0)
+	})
+	evs := []E{
+		MintFresh(A, OddBatch, B, "5", "0"),
+		fix(Mint(A, OddBatch, C, "1", "0.5", nil)),
+		fix(Send(B, C, OddBatch, "1", "0")),
+		fix(Put(B, NCT, BC(BioBatch, "1"))),
+		fix(Put(B, NCT, BC(B1, "1"))),
+		Buy(D, "order-with-fractional-ask", BuySpec{Seller: B, K: 3, Qty: "0", MaxFee: I64(100)}),
+		fix(Msg("BuyDirect(D,order9,0.5@11)", MkBuyMsg(D, 9, "0.5", coin("uregen", 11), true))),
+		fix(Msg("BuyDirect(D,order9,0.5@10)", MkBuyMsg(D, 9, "0.5", coin("uregen", 10), true))),
+		fix(Msg("BuyDirect(D,order8,0.5@3)", MkBuyMsg(D, 8, "0.5", coin("uregen", 3), true))),
+		CancelOrder(B, B, 2),
+		fix(Next(5 * time.Second)),
+		fix(Next(10 * time.Second)),
+		fix(Next(365 * 24 * time.Hour)),
+	}
+	exp := map[string]bool{}
+	for _, e := range evs {
+		exp[e.Name] = true
+	}
+	return Spec{Name: "odd-genesis", Seeds: []explore.Seed{seed}, Events: evs, DepthQuick: 3, DepthThor: 4, ExpectFail: exp, MinStates: 20}
 }
 
 // BasketMarket: basket tokens used as the ask denomination of the marketplace, with fees (C05): the
